@@ -94,8 +94,8 @@ func evalC01(c C01Case) *h.Finding {
 			cuts = append(cuts, len(c01Prologue)+k)
 		}
 		o := h.RunS(h.Config{MaxMessageBytes: c.Limit}, be, cutSegs(full, cuts), h.TermEOF)
-		if o.Panic != "" {
-			return h.F("c01-panic", "handler panicked: %s", o.Panic)
+		if f := o.Sanity("c01", fmt.Sprintf("stream %q", c.Stream)); f != nil {
+			return f
 		}
 		var data *h.Event
 		for i := range o.Trace {
